@@ -1,6 +1,7 @@
 package eng
 
 import (
+	"fmt"
 	"math/rand"
 	"sync"
 
@@ -49,8 +50,8 @@ type HSConfig struct {
 	CExpect, SExpect *btcec.PublicKey
 	// Hooks of the adversary on each direction (client->server,
 	// server->client) and read fragmentation.
-	HookC2S, HookS2C       func(idx int, p []byte) [][]byte
-	ReadMaxC, ReadMaxS     func() int
+	HookC2S, HookS2C   func(idx int, p []byte) [][]byte
+	ReadMaxC, ReadMaxS func() int
 }
 
 // HSResult is the outcome of a handshake experiment.
@@ -137,4 +138,53 @@ func Entropy(rng *rand.Rand) []byte {
 	b := make([]byte, mailbox.NumPassphraseEntropyBytes)
 	rng.Read(b)
 	return b
+}
+
+// Session runs a clean handshake (XX with a shared passphrase, or KK with the
+// true keys) and returns both machines.
+func Session(rng *rand.Rand, kk bool, auth []byte) *HSResult {
+	pass := Entropy(rng)
+	cfg := HSConfig{KK: kk, CMin: 0, CMax: 2, SMin: 0, SMax: 2, PassC: pass, PassS: pass,
+		Auth: auth, KeyC: NewKey(rng), KeyS: NewKey(rng)}
+	if kk {
+		cfg.CMin, cfg.SMin = 2, 2
+	}
+	return RunHandshake(cfg)
+}
+
+type recWriter struct{ chunks [][]byte }
+
+func (w *recWriter) Write(p []byte) (int, error) {
+	w.chunks = append(w.chunks, append([]byte{}, p...))
+	return len(p), nil
+}
+
+// Record is one encrypted record as it appears on the wire.
+type Record struct {
+	Header []byte // 18 bytes
+	Body   []byte // len(plaintext)+16 bytes
+	Plain  []byte
+}
+
+// Bytes returns header||body.
+func (r Record) Bytes() []byte { return append(append([]byte{}, r.Header...), r.Body...) }
+
+// WriteRecords encrypts the plaintexts with the machine's send cipher and
+// returns the wire records.
+func WriteRecords(m *mailbox.Machine, plains [][]byte) ([]Record, error) {
+	var out []Record
+	for _, p := range plains {
+		if err := m.WriteMessage(p); err != nil {
+			return out, err
+		}
+		w := &recWriter{}
+		if _, err := m.Flush(w); err != nil {
+			return out, err
+		}
+		if len(w.chunks) != 2 {
+			return out, fmt.Errorf("flush produced %d writes, expected header and body", len(w.chunks))
+		}
+		out = append(out, Record{Header: w.chunks[0], Body: w.chunks[1], Plain: append([]byte{}, p...)})
+	}
+	return out, nil
 }
